@@ -38,6 +38,12 @@ CHECKS = {
  "C19": ("exploration", E2,
          "The real & is executed under Metrics with consumable intersect_0/intersect_1 traces for every top-level pair of F1(5) and for 1-3 consecutive rows under an outer rank against a fixed or per-row second operand; the same traces are fed to the real TwoFinger / SkipAhead / LeaderFollower models fiber by fiber and in one shot and the totals compared with independent merges of the raw coordinate lists; Compute.numSwaps is compared with a per-round, per-group charge recomputed from the tree for every tree of four universes x radix {2,3,4,N} x latency {1,2,N} x two payload valuations.",
          "Trusted: the independent merge counters (self-checked against the totals pinned by test_intersector.py / test_compute.py at start-up); where the statement leaves a reading open (content-free child as a list, tie-break of equal heads) every consistent reading is accepted.", "DESIGN.md §3 C19"),
+ "C18": ("exploration", E2,
+         "Every tensor of T2(2,2), T2(3,2), a T3(2,2,2) slice (explicit defaults and empty sub-fibers included) and a non-zero-default family is combined with specification families (distinct prime widths x formats {missing,C,U}^depth x root variants; a pairwise covering array over all 6*depth+2 specification fields plus degenerate specs; thorough: the full product of one rank's fields) and every query (getFiber / getSubTree at every point prefix, getRank, getRoot, getTensor, the get*Bits getters) is compared with sums recomputed from a raw walk of the tree spec.",
+         "Trusted: the footprint oracle mc/ref_c18.py, calibrated at start-up against the totals pinned in test/test_format.py; tensors have declared shapes.", "DESIGN.md §3 C18"),
+ "C20": ("exploration", E2,
+         "Every tensor of depth 1-3 over small shapes (stored-empty fibers, absent fibers and the all-zero tensor included) x all 3^depth descriptors over {U,C,B} x shape argument {none, own, own+1} (+ mask-word boundary shapes 31..65) is encoded by the real Codec driven as swoop_util does with a stub cache; an independent decoder of the documented layouts must reproduce the content, scanning each encoded fiber through its handle API must yield the decoded elements, coordToHandle must return the first stored coordinate >= q for every q, getSize must equal the stored word count, and child links of U fibers must address the right child.",
+         "Trusted: the layout decoder mc/ref_c20.py (calibrated on 11 688 encodes, probe q24); getSize is a regression oracle; child links of C/B fibers are not demanded (see DESIGN.md).", "DESIGN.md §3 C20"),
  "C04": ("exploration", E2,
          "Every ordered pair / k-tuple of fibers of the stated small universes (leaf, sub-fiber, tuple-coordinate, mixed-arity, uncompressed-format and n-ary families) is run through the real operators and compared with set algebra, payload identity, mask and freshness oracles; operands and owning tensors are snapshotted before and after. Exhaustive within the bounds, which contain every relative order of the last elements of both operands and every explicit-default placement.",
          "Trusted: the harness's construction of operands through Fiber()/Tensor.fromFiber and raw reads of coords/payloads; nothing is claimed beyond N<=7 coordinates, depth 2, k<=4.", "DESIGN.md §3 C04"),
